@@ -173,7 +173,7 @@ theorem wf_step (s : St) (e : Ev) (hi : Inv1 s) (hw : WF s) : WF (step .repaired
     split
     · rename_i hp
       have := readyOk_makeProxy key true s (w3 hp)
-      constructor <;> simp_all [makeProxy]
+      constructor <;> simp_all [makeProxy, makeProxyCbs]
     · exact ⟨w1, w2, w3⟩
   | proxyIntrospect key =>
     simp only [step]
